@@ -11,7 +11,7 @@ from common import hx
 FILES = ["gen/Gen_tensors.v", "Model_voigt.v", "Proofs_tensors_alg.v"] + \
         [f"Proofs_tensors_rot{i}.v" for i in range(9)] + \
         ["Proofs_tensors_rot.v", "Proofs_tensors_maps.v", "Proofs_tensors_proj.v", "Inst_tensors.v", "Proofs_voigt.v",
-         "Model_decomp.v", "Proofs_decomp.v", "Proofs_voigt2.v", "Entry_tensors.v", "Extract_tensors.v"]
+         "Model_decomp.v", "Proofs_decomp.v", "Proofs_voigt2.v", "Proofs_voigt3.v", "Entry_tensors.v", "Extract_tensors.v"]
 PROP = "Properties/C10.v"
 
 OL, EN = 0, 1
@@ -193,6 +193,214 @@ def oracle_rejects(c):
     return []
 
 
+# --------------------------------------------------------------------------
+# stateful stream: StiffnessTensors instances that live across several calls
+# --------------------------------------------------------------------------
+# A sequence = base case (assemblage, phis, minerals, initial constants) + a variant + steps.
+# Every step modifies the constants of an instance (attribute assignment or in-place write, the
+# two ways the docstring of voigt_averages tells users to customise) and then averages again
+# with the SAME instance.  Each call must give what a fresh instance holding the constants
+# that the instance holds AT THAT CALL gives (= the model evaluated on those constants).
+SEQ_VARIANTS = ["reuse", "reuse", "reuse", "pre_customised", "subclass", "twins", "default_arg"]
+_NAMES = {OL: "olivine", EN: "enstatite"}
+
+
+def gen_seq(rng, variant=None):
+    base = gen_case(rng, "valid")
+    base["minerals"] = [dict(m, orientations=m["orientations"][:2], fractions=m["fractions"][:2]) for m in base["minerals"]]
+    variant = variant or SEQ_VARIANTS[int(rng.integers(0, len(SEQ_VARIANTS)))]
+    steps = []
+    for _ in range(int(rng.integers(2, 4))):
+        mods = []
+        for ph in (OL, EN):
+            if rng.random() < 0.7:
+                how = ["assign", "inplace", "scale"][int(rng.integers(0, 3))]
+                mods.append(dict(phase=ph, how=how, matrix=G.spd6(rng, 150.0), factor=float(rng.uniform(0.5, 1.5))))
+        if not mods:
+            mods.append(dict(phase=int(base["minerals"][0]["phase"]), how="assign", matrix=G.spd6(rng, 150.0), factor=1.0))
+        steps.append(mods)
+    if variant == "default_arg":
+        base["tensors"] = [G.OLIVINE.copy(), G.ENSTATITE.copy()]
+        steps = []
+    return dict(base, kind="stateful", variant=variant, steps=steps)
+
+
+def _apply(st, held, mods):
+    """modify the instance `st` and the harness's own record `held` of what it must hold"""
+    for md in mods:
+        name = _NAMES[md["phase"]]
+        if md["how"] == "assign":
+            setattr(st, name, np.array(md["matrix"]))
+            held[md["phase"]] = np.array(md["matrix"])
+        elif md["how"] == "inplace":
+            getattr(st, name)[...] = md["matrix"]
+            held[md["phase"]] = np.array(md["matrix"])
+        else:  # scale: in-place multiplication of the array the instance already holds
+            arr = getattr(st, name)
+            arr *= md["factor"]
+            held[md["phase"]] = held[md["phase"]] * md["factor"]
+
+
+def run_seq(sc):
+    """Execute the sequence on the implementation.  Returns [(label, held_constants, result)],
+    result = ("OK", array) | ("ERR", code, text); held_constants = [olivine, enstatite] the
+    instance used for that call must hold."""
+    import dataclasses
+    import pydrex.minerals as M
+    plain = dict(sc, kind="valid")
+    ms, asm, phis, _ = build(plain)
+    t0 = [np.array(sc["tensors"][0]), np.array(sc["tensors"][1])]
+    out = []
+
+    def call(label, st, held, **kw):
+        try:
+            if st is None:
+                r = ("OK", np.asarray(M.voigt_averages(ms, asm, phis), dtype=float))
+            else:
+                r = ("OK", np.asarray(M.voigt_averages(ms, asm, phis, st), dtype=float))
+        except Exception as e:  # noqa: BLE001
+            r = ("ERR", common.exc_code(e), str(e))
+        seen = None if st is None else [np.array(st.olivine), np.array(st.enstatite)]
+        out.append((label, [h.copy() for h in held], r, seen))
+
+    v = sc["variant"]
+    if v == "default_arg":
+        call("default elastic_tensors argument", None, t0)
+        return out
+    if v == "reuse":
+        st = M.StiffnessTensors(olivine=t0[0].copy(), enstatite=t0[1].copy())
+        held = [t0[0].copy(), t0[1].copy()]
+        call("first use", st, held)
+        for k, mods in enumerate(sc["steps"]):
+            _apply(st, held, mods)
+            call(f"same instance after modification {k + 1} ({', '.join(_NAMES[m['phase']] + ':' + m['how'] for m in mods)})", st, held)
+    elif v == "pre_customised":
+        st = M.StiffnessTensors()
+        held = [G.OLIVINE.copy(), G.ENSTATITE.copy()]
+        _apply(st, held, sc["steps"][0])
+        call("default instance customised before its first use", st, held)
+        for k, mods in enumerate(sc["steps"][1:]):
+            _apply(st, held, mods)
+            call(f"same instance after modification {k + 2}", st, held)
+    elif v == "subclass":
+        a, b = t0[0].copy(), t0[1].copy()
+        Sub = dataclasses.make_dataclass(
+            "CustomTensors",
+            [("olivine", np.ndarray, dataclasses.field(default_factory=lambda: a.copy())),
+             ("enstatite", np.ndarray, dataclasses.field(default_factory=lambda: b.copy()))],
+            bases=(M.StiffnessTensors,))
+        st = Sub()
+        held = [a.copy(), b.copy()]
+        call("subclass with overridden defaults", st, held)
+        for k, mods in enumerate(sc["steps"]):
+            _apply(st, held, mods)
+            call(f"subclass instance after modification {k + 1}", st, held)
+        call("second instance of the subclass (defaults)", Sub(), [a.copy(), b.copy()])
+    elif v == "twins":
+        st1 = M.StiffnessTensors(olivine=t0[0].copy(), enstatite=t0[1].copy())
+        st2 = M.StiffnessTensors(olivine=t0[0].copy(), enstatite=t0[1].copy())
+        h1, h2 = [t0[0].copy(), t0[1].copy()], [t0[0].copy(), t0[1].copy()]
+        call("twin 1, first use", st1, h1)
+        call("twin 2 (identical constants), first use", st2, h2)
+        for k, mods in enumerate(sc["steps"]):
+            _apply(st1, h1, mods)
+            call(f"twin 2 after twin 1 was modified ({k + 1})", st2, h2)
+            call(f"twin 1 after modification {k + 1}", st1, h1)
+    return out
+
+
+def seq_expected_cases(sc, calls):
+    return [dict(sc, kind="valid", tensors=[h[0], h[1]]) for _, h, _, _ in calls]
+
+
+def oracle_seq(sc):
+    """Property oracle for a sequence: every call must equal the call on a FRESH instance that
+    holds the same constants, which in turn must satisfy C10 (oracle above)."""
+    f = []
+    calls = run_seq(sc)
+    for (label, held, r, seen), c in zip(calls, seq_expected_cases(sc, calls)):
+        if seen is not None and (np.abs(seen[0] - held[0]).max() > 0 or np.abs(seen[1] - held[1]).max() > 0):
+            f.append(f"[{sc['variant']}: {label}] the instance does not hold the constants it was given")
+        fresh = impl(c)
+        if r[0] == "ERR" or fresh[0] == "ERR":
+            if not (r[0] == fresh[0] == "ERR" and r[1] == fresh[1]):
+                f.append(f"[{sc['variant']}: {label}] outcome differs from a fresh StiffnessTensors instance with the same constants")
+            continue
+        sc_ = max(1.0, float(np.abs(fresh[1]).max()))
+        if np.abs(r[1] - fresh[1]).max() > 1e-9 * sc_:
+            f.append(f"[{sc['variant']}: {label}] voigt_averages does not use the constants the StiffnessTensors instance holds at the call "
+                     f"(differs from a fresh instance with the same constants by {np.abs(r[1] - fresh[1]).max():.3e})")
+    if not f:
+        c0 = dict(sc, kind="valid")
+        f += oracle(c0)
+    return f
+
+
+def encode_any(c):
+    d = encode(c)
+    if c.get("kind") == "stateful":
+        d["variant"] = c["variant"]
+        d["steps"] = [[{"phase": m["phase"], "how": m["how"], "factor": hx(m["factor"]),
+                        "matrix": [hx(x) for x in np.asarray(m["matrix"]).reshape(-1)]} for m in mods] for mods in c["steps"]]
+    return d
+
+
+def decode_any(d):
+    c = decode(d)
+    if d.get("kind") == "stateful":
+        u = common.unhx
+        c["variant"] = d["variant"]
+        c["steps"] = [[dict(phase=m["phase"], how=m["how"], factor=u(m["factor"]),
+                            matrix=np.array([u(x) for x in m["matrix"]]).reshape(6, 6)) for m in mods] for mods in d["steps"]]
+    return c
+
+
+def fails_of(c):
+    k = c.get("kind", "valid")
+    if k == "stateful":
+        return oracle_seq(c)
+    return oracle(c) if k == "valid" else oracle_rejects(c)
+
+
+def gen_seqs(chk, tier):
+    rng = np.random.default_rng(chk.seed + 2)
+    n = 21 if tier == "quick" else 700
+    return [gen_seq(rng, SEQ_VARIANTS[k % len(SEQ_VARIANTS)]) for k in range(n)]
+
+
+def compare_seqs(chk, seqs):
+    """stateful correspondence: every call of every sequence vs the extracted model evaluated
+    on the constants the instance holds at that call"""
+    runs = [run_seq(sc) for sc in seqs]
+    exp = [seq_expected_cases(sc, calls) for sc, calls in zip(seqs, runs)]
+    lines = [model_line(c) for cs in exp for c in cs]
+    mres = common.run_model(lines, group=G.GROUP) if lines else []
+    bad, k = [], 0
+    hist = chk.cov.setdefault("histogram", {})
+    for sc, calls, cs in zip(seqs, runs, exp):
+        for (label, held, r, seen), c in zip(calls, cs):
+            m = mres[k]
+            k += 1
+            key = f"stateful|{sc['variant']}|call={label.split(' (')[0].rstrip('0123456789 ')}"
+            hist[key] = hist.get(key, 0) + 1
+            chk.note_case(("voigt-stateful", sc["variant"], label, model_line(c)), nontrivial=(r[0] == "OK"),
+                          sample={"kind": "stateful", "variant": sc["variant"], "call": label,
+                                  "impl": r[1] if r[0] == "ERR" else [float(v) for v in r[1].reshape(-1)[:3]],
+                                  "model": m[1] if m[0] == "ERR" else [float(v) for v in m[1][:3]]})
+            if seen is not None and (np.abs(seen[0] - held[0]).max() > 0 or np.abs(seen[1] - held[1]).max() > 0):
+                bad.append((sc, f"[{sc['variant']}: {label}] instance attributes differ from the constants assigned"))
+            if r[0] == "ERR" or m[0] == "ERR":
+                if not (r[0] == m[0] == "ERR" and r[1] == m[1]):
+                    bad.append((sc, f"[{sc['variant']}: {label}] implementation: {r[:2] if r[0] == 'ERR' else 'OK'}, model: {m[:2] if m[0] == 'ERR' else 'OK'}"))
+                continue
+            okc, idx = common.vec_close(list(r[1].reshape(-1)), m[1], rtol=1e-9)
+            if not okc:
+                bad.append((sc, f"[{sc['variant']}: {label}] component {idx}: implementation (instance reused) vs model on the constants held at the call differ"))
+    chk.cov["stateful_sequences"] = len(seqs)
+    chk.cov["stateful_calls"] = k
+    return bad
+
+
 KINDS = ["valid"] * 8 + ["bad_ngrains", "bad_osteps", "bad_fsteps", "phase_missing", "phis_short"]
 
 
@@ -229,10 +437,11 @@ def compare(chk, cases):
 
 def search(chk, extra=()):
     rng = np.random.default_rng(chk.seed + 1)
-    pool = [c for c in extra] + [gen_case(rng, KINDS[k % len(KINDS)]) for k in range(60)]
+    pool = [c for c in extra] + [gen_seq(rng, SEQ_VARIANTS[k % len(SEQ_VARIANTS)]) for k in range(14)] \
+        + [gen_case(rng, KINDS[k % len(KINDS)]) for k in range(60)]
     found, seen = [], set()
     for c in pool:
-        fails = oracle(c) if c["kind"] == "valid" else oracle_rejects(c)
+        fails = fails_of(c)
         new = [m.split("(")[0] for m in fails if m.split("(")[0] not in seen]
         if new:
             seen.update(new)
@@ -252,24 +461,29 @@ def run(chk):
     chk.cov["rule"] = ("synthetic minerals built directly from arrays: assemblages (ol), (en), (ol,en), (en,ol); mineral list in random order, a phase listed twice in 25% of cases; "
                        "1-4 snapshots, 1-30 grains (+300-grain textures), Haar orientations, Dirichlet volumes (alpha 0.3/1/10), phase fractions on the simplex, "
                        "built-in or random SPD stiffness pairs; error stream: unequal n_grains, unequal orientation / fraction snapshot counts, phase missing from the assemblage, "
-                       "too few phase fractions; implementation vs extracted model at 1e-9 and same exception class; non-trivial = the call returns a result")
+                       "too few phase fractions; implementation vs extracted model at 1e-9 and same exception class; non-trivial = the call returns a result; "
+                       "STATEFUL stream: StiffnessTensors instances living across calls -- one instance reused over [average, modify olivine and/or enstatite "
+                       "(attribute assignment / in-place overwrite / in-place scaling), average, ...], a default instance customised before first use, a subclass "
+                       "with overridden defaults (and a second instance of it), two instances with identical constants of which one is modified, the default "
+                       "elastic_tensors argument; every call vs the model evaluated on the constants the instance holds at that call")
     bad = []
     if br.drivers.get(G.GROUP, 1) is None:
         cases = gen_cases(chk, chk.tier)
         bad = compare(chk, cases)
-        chk.cov["traces_validated_against_impl"] = len(cases)
+        bad += compare_seqs(chk, gen_seqs(chk, chk.tier))
+        chk.cov["traces_validated_against_impl"] = len(cases) + chk.cov.get("stateful_calls", 0)
     chk.cov["disagreements"] = len(bad)
     if ok and not bad:
         return
     found = search(chk, extra=[c for c, _ in bad[:20]])
     if found:
         for c, fails in found:
-            chk.replay({"kind": "property-violation", "call": "pydrex.minerals.voigt_averages", "input": encode(c),
+            chk.replay({"kind": "property-violation", "call": "pydrex.minerals.voigt_averages", "input": encode_any(c),
                         "observed": fails, "required": "C10 (see properties.jsonl)",
                         "broken": chk.cov.get("broken_obligations", []), "disagreements": [m for _, m in bad[:3]]})
     else:
         chk.replay({"kind": "unproved", "broken": chk.cov.get("broken_obligations", []),
-                    "disagreements": [{"input": encode(c), "detail": m} for c, m in bad[:3]],
+                    "disagreements": [{"input": encode_any(c), "detail": m} for c, m in bad[:3]],
                     "note": "proof obligation or correspondence no longer checks; no failing input found by the search"},
                    no_input=True)
 
@@ -279,8 +493,8 @@ def replay(d):
     if d.get("kind") != "property-violation":
         print("replay file names a broken obligation; re-run the check itself")
         return 1
-    c = decode(d["input"])
-    fails = oracle(c) if c.get("kind", "valid") == "valid" else oracle_rejects(c)
+    c = decode_any(d["input"])
+    fails = fails_of(c)
     for f in fails:
         print("still fails:", f)
     return 1 if fails else 0
